@@ -10,7 +10,7 @@ RULE = ('C01 workloads plus 1-3 termination requests (terminate(reason) / Agent.
         'of runs, faults (stall, slow node, reset, kill = FIN from a dead process, black-hole), each placed at a drawn time, very '
         'early (contact/session negotiation), after the n-th socket write of a side, or after the n-th occurrence of a D-Bus '
         'signal (transfer started / intermediate / finished, state change); bounded buffers and short writes stay enabled. '
-        'A fifth of the runs open two contacts between the same two agents and call Agent.shutdown() (or terminate() on one contact) while transfers run on the other; no faults there, so every started transfer must complete, every terminated contact must exchange SESS_TERM and close, and a contact that was not terminated must stay open. Non-trivial: a SESS_TERM, close or fault actually occurred; distinct = distinct event-history digests.')
+        'A fifth of the runs open two contacts between the same two agents and call Agent.shutdown() (or terminate() on one contact) while transfers run on the other; no faults there, so every started transfer must complete, every terminated contact must exchange SESS_TERM and close, and a contact that was not terminated must stay open; in half of the terminate-one-contact runs Agent.shutdown() follows 0-1 s later (the contact may still be ending), and a shutdown that arrives while a contact is still negotiating must leave nothing open. Non-trivial: a SESS_TERM, close or fault actually occurred; distinct = distinct event-history digests.')
 COMPONENTS = tc.COMPONENTS
 PROBES = ('wire.SESS_TERM', 'probe.term_mid_transfer', 'probe.simultaneous_term', 'probe.term_before_established',
           'probe.unstarted_at_term', 'fault.reset', 'fault.kill', 'fault.blackhole', 'fault.stall', 'tcp.short_write', 'engine.multi_contact', 'fault.spurious_readable', 'probe.shutdown_while_ending')
